@@ -64,7 +64,7 @@ type mInb struct { // peer datagram received at a relay socket
 	Judged   bool
 }
 
-type nonceInfo struct{ First, Last int64 }
+type nonceInfo struct{ MintLo, First, Last int64 } // minted somewhere in [MintLo, First]
 
 type evRec struct {
 	Kind string
@@ -112,6 +112,7 @@ type Monitor struct {
 	dataConns        map[uint32]*TCPConn
 	unboundReported  map[uint32]bool
 	readCalls        map[string]int // reader -> number of read calls so far (handler completion)
+	anyMsg           map[string]bool // client|tid of every STUN message received, of any class
 	curSrc           string
 	InboundMTU       int
 }
@@ -132,7 +133,7 @@ func NewMonitor(k *Kernel, n *Net, p *Plan) *Monitor {
 	m := &Monitor{K: k, Net: n, P: p, M: NewModel(perm, ch, life), users: map[string]string{}, denyPeer: map[string]bool{},
 		denyClient: map[string]bool{}, nonces: map[string]*nonceInfo{}, intents: map[string]*Intent{}, reqs: map[string][]*mReq{},
 		evCount: map[string]int{}, states: map[string]struct{}{}, srvWriteFailed: map[string]bool{}, MustMax: 1400,
-		tcpCtl: map[*TCPConn]*ctlStream{}, relayErr: map[string]int64{}, relayWriteErr: map[string]bool{}, orphanDeletes: map[string][]int64{}, leakReported: map[string]bool{}, Refresh0Err: map[string]int{}, dataConns: map[uint32]*TCPConn{}, unboundReported: map[uint32]bool{}, readCalls: map[string]int{}, ctlEnded: map[string]int64{}}
+		tcpCtl: map[*TCPConn]*ctlStream{}, relayErr: map[string]int64{}, relayWriteErr: map[string]bool{}, orphanDeletes: map[string][]int64{}, leakReported: map[string]bool{}, Refresh0Err: map[string]int{}, dataConns: map[uint32]*TCPConn{}, unboundReported: map[uint32]bool{}, readCalls: map[string]int{}, anyMsg: map[string]bool{}, ctlEnded: map[string]int64{}}
 	m.InboundMTU = p.Cfg.InboundMTU
 	if m.InboundMTU == 0 {
 		m.InboundMTU = 1600
@@ -221,11 +222,10 @@ func (m *Monitor) authentic(msg *stun.Message, now int64) (int, string, string) 
 	if !ok {
 		return -1, "foreign-nonce", un.String()
 	}
-	age := now - ni.First
 	switch {
-	case age < 59*60e9:
+	case now-ni.MintLo < 59*60e9:
 		return 1, "", un.String()
-	case age > 61*60e9:
+	case now-ni.First > 61*60e9:
 		return -1, "stale-nonce", un.String()
 	}
 	return 0, "nonce-age-band", un.String()
@@ -306,7 +306,16 @@ func (m *Monitor) srvRecv(client string, b []byte, whole bool, now int64) {
 		m.K.Stats.Probe("client_msg_exceeds_inbound_mtu")
 		return
 	}
+	if len(b) > 0 && b[0]&0xC0 == 0x40 {
+		// the two leading bits say ChannelData, whatever the rest looks like
+		if num, data, ok := parseChannelData(b); ok {
+			m.subs = append(m.subs, &mSub{Client: client, IsChan: true, Chan: num, Payload: data, TRecv: now, Whole: true, MsgLen: len(b)})
+			return
+		}
+		// declared length exceeds the datagram: not ChannelData; the bytes may still parse as STUN
+	}
 	if msg, ok := decodeSTUN(b); ok {
+		m.anyMsg[client+"|"+string(msg.TransactionID[:])] = true
 		switch msg.Type.Class {
 		case stun.ClassRequest:
 			r := &mReq{Client: client, TID: msg.TransactionID, Method: msg.Type.Method, Msg: msg, Raw: b, TRecv: now, Src: m.curSrc, RC: m.readCalls[m.curSrc]}
@@ -401,6 +410,11 @@ func attrSig(msg *stun.Message) string {
 
 func (m *Monitor) onResponse(to string, msg *stun.Message, raw []byte, now int64) {
 	r := m.findReq(to, msg.TransactionID, msg.Type.Method)
+	if r == nil && m.anyMsg[to+"|"+string(msg.TransactionID[:])] && msg.Type.Class == stun.ClassErrorResponse {
+		// an error answer to a non-request message (e.g. an indication carrying an unknown
+		// comprehension-required attribute): correlated, and it changes nothing
+		return
+	}
 	if r == nil {
 		// why? classify for C19
 		for k, rs := range m.reqs {
@@ -435,7 +449,7 @@ func (m *Monitor) onResponse(to string, msg *stun.Message, raw []byte, now int64
 					m.v([]string{"C03"}, "challenge-unusable", kv("code", itoa(code)), "challenge realm %q != configured %q", rl.String(), m.P.Cfg.Realm)
 				}
 				if ni := m.nonces[nc.String()]; ni == nil {
-					m.nonces[nc.String()] = &nonceInfo{First: now, Last: now}
+					m.nonces[nc.String()] = &nonceInfo{MintLo: r.TRecv, First: now, Last: now}
 				} else {
 					ni.Last = now
 				}
@@ -1430,7 +1444,7 @@ func (m *Monitor) unanswered(r *mReq, now int64) {
 	I := ivl{r.TRecv, now}
 	switch r.Method {
 	case stun.MethodBinding:
-		m.v([]string{"C09", "C19"}, "no-response", kv("method", "binding"), "Binding request from %s was never answered", r.Client)
+		m.v([]string{"C09", "C19"}, "no-response", kv("method", "binding"), "Binding request from %s (received at %d ns, %d bytes: %x) was never answered", r.Client, r.TRecv, len(r.Raw), r.Raw)
 	case stun.MethodAllocate, stun.MethodRefresh, stun.MethodCreatePermission, stun.MethodChannelBind:
 		if r.Auth < 0 && (r.AuthWhy == "no-integrity" || r.AuthWhy == "stale-nonce") && m.P.Cfg.Auth != "none" {
 			m.v([]string{"C03"}, "no-challenge", kv("method", methodName(r.Method), "why", r.AuthWhy), "%s without valid credentials (%s) got no challenge", methodName(r.Method), r.AuthWhy)
